@@ -4,13 +4,19 @@ S1 seam (no stubs): for a card, the real recipes are created, the real Operator 
 OperatorMatrixElement are built exactly as runner.parts does, and the integrand that
 scipy.integrate.quad would integrate is evaluated on a small (grid point, basis function, u)
 lattice for every sector label. S3 seam: the real eko.solve on a 3-point grid.
-Oracle per card: all values finite, or NotImplementedError/ValueError with a message. Anything else
-(TypeError, AttributeError, IndexError, ZeroDivisionError, None, nan, inf) is a violation.
-Entry-point block: the highest-order component of every anomalous-dimension / singlet matching
-tower is non-zero at generic N unless refused (documented exception: time-like matching > NLO).
+Oracle per card: all values finite, or a clean refusal = NotImplementedError/ValueError raised by an explicit `raise`
+inside eko/ekore/ekobox whose message names a feature the card really uses. Anything else (TypeError, AttributeError,
+IndexError, ZeroDivisionError, a ValueError out of numpy/math, None, nan, inf) is a violation.
+Cards outside the 9-dimensional product (ev_op_max_order, MSbar masses, N3LO parametrisation/variations, matching
+order, matching ratios, interpolation mode/degree, iterations, xif < 1, skip flags) are visited one setting at a time.
+Entry-point block: the highest-order component of every anomalous-dimension / matching tower (QCD and QED) is
+non-zero at generic N unless refused (documented exception: time-like matching > NLO).
 """
 
 import math
+import os
+import re
+import traceback
 import types
 
 import numpy as np
@@ -20,12 +26,14 @@ from vf.core.ctx import Result, HarnessError
 
 ID = "C04"
 LEVEL = "exploration"
-TECHNIQUE = "exhaustive enumeration of the runcard product (thorough: all 55 296 cards at the integrand seam; quick: <=2 deviations) plus real solves on the <=1-deviation set; outcome classification"
+TECHNIQUE = "exhaustive enumeration of the runcard product (thorough: all 55 296 cards at the integrand seam; quick: <=2 deviations) plus real solves on the <=1-deviation set and one-setting excursions outside the product; outcome classification with a pinned notion of clean refusal"
 LEVEL_TEXT = (
     "each card of the product QCD order x QED order x running x 8 methods x 3 sv x 2 inversions x 4 pol/time-like x 3 path shapes x nf "
-    "is driven through the real recipe/operator construction and integrand evaluation; outcome must be finite numbers or a clean refusal"
+    "is driven through the real recipe/operator construction and integrand evaluation; outcome must be finite numbers or a clean refusal "
+    "(explicit raise inside eko naming a feature the card uses); ev_op_max_order, MSbar masses, N3LO variants, matching order, ratios, "
+    "interpolation mode, iterations, xif < 1 and skip flags are varied one at a time on base cards"
 )
-LEVEL_NOTE = "integrand seam samples each sector at a few (x, basis, u) points instead of running the quadrature; S3 solves only within 1 deviation of 4 bases; interpreted mode"
+LEVEL_NOTE = "integrand seam samples each sector at a few (x, basis, u) points instead of running the quadrature; S3 solves only within 1 deviation of 4 bases; settings outside the 9 dimensions are not combined with each other; interpreted mode"
 FLOOR_NONTRIVIAL = 50
 
 GRID = [0.05, 0.3, 1.0]
@@ -94,8 +102,79 @@ def _sig_class(cfg):
     )
 
 
-def _clean_refusal(e):
-    return isinstance(e, (NotImplementedError, ValueError)) and len(str(e).strip()) >= 5
+def _src_root():
+    import eko
+
+    return os.path.dirname(os.path.dirname(os.path.abspath(eko.__file__)))
+
+
+def _site(e):
+    """(site string, raised by an explicit `raise` statement inside eko/ekore/ekobox?) of the innermost frame."""
+    tb = traceback.extract_tb(e.__traceback__)
+    if not tb:
+        return "?", False
+    fr = tb[-1]
+    root = _src_root() + os.sep
+    fn = os.path.abspath(fr.filename)
+    if fn.startswith(root):
+        rel = fn[len(root):]
+        own = rel.split(os.sep)[0] in ("eko", "ekore", "ekobox")
+    else:
+        rel = fr.filename.split("/src/")[-1]
+        own = False
+    explicit = own and (fr.line or "").lstrip().startswith("raise")
+    return f"{rel}:{fr.name}", explicit
+
+
+# words by which a refusal names a feature of the card, and what the card must then contain.  A refusal that names a
+# feature the card does not use (e.g. "... with QED" on a pure QCD card) does not name *the* unsupported feature.
+_FEATURE_WORDS = [
+    (r"\bQED\b", "qed"),
+    (r"iterate-exact", "method-not-iterate-exact"),
+    (r"[Pp]olari[sz]ed", "polarized"),
+    (r"[Tt]ime-like", "time_like"),
+    (r"beyond NNLO|at N3LO", "n3lo"),
+    (r"nf=6", "nf6"),
+    (r"MSbar", "msbar"),
+    # feature words without a checkable counterpart in the card
+    (r"[Mm]ethod|[Oo]rder|scheme|N3LO|NNLO|not available", None),
+]
+
+
+def _card_facts(cfg):
+    order = cfg["order"]
+    mo = cfg.get("matching_order") or [order[0] - 1, 0]
+    nfs = [cfg["init"][1]] + [t[1] for t in cfg["mugrid"]]
+    return {
+        "qed": order[1] > 0,
+        "method-not-iterate-exact": cfg["method"] != "iterate-exact",
+        "polarized": bool(cfg["polarized"]),
+        "time_like": bool(cfg["time_like"]),
+        "n3lo": order[0] >= 4 or mo[0] >= 3,
+        "nf6": max(nfs) >= 6,
+        "msbar": cfg.get("scheme", "POLE") == "MSBAR",
+    }
+
+
+def _refusal(e, facts):
+    """Classify an exception: (clean?, site, reason it is not clean or None).
+
+    Clean = a NotImplementedError/ValueError raised by an explicit `raise` inside eko/ekore/ekobox whose message names
+    a feature (one of _FEATURE_WORDS) and every checkable feature it names is one the card really uses. numpy
+    broadcast / shape errors, math domain errors, LinAlgError, conversion errors ... are ValueErrors too, but they
+    come out of a library call and name nothing: they are crashes.
+    """
+    site, explicit = _site(e)
+    if not isinstance(e, (NotImplementedError, ValueError)) or not explicit:
+        return False, site, "crash"
+    msg = str(e)
+    named = [fact for pat, fact in _FEATURE_WORDS if re.search(pat, msg)]
+    if len(msg.strip()) < 5 or not named:
+        return False, site, "names-no-feature"
+    wrong = sorted(f for f in named if f is not None and not facts.get(f, False))
+    if wrong:
+        return False, site, "names-" + "+".join(wrong) + "-absent-from-card"
+    return True, site, None
 
 
 U_POINTS = [0.5, 0.75, 0.95]
@@ -166,43 +245,91 @@ def s1r_solve(cfg):
         evop.integrate = saved
 
 
+def _extra_class(cfg, extra):
+    """Discrete coordinates of the settings outside the 9-dimensional product (signature suffix; '' without extras)."""
+    if not extra:
+        return ""
+    parts = []
+    for k in sorted(extra):
+        if k == "max_order":
+            parts.append("max_order<order-1" if extra[k][0] < cfg["order"][0] - 1 else "max_order>=order-1")
+        elif k == "matching_order":
+            d = extra[k][0] - (cfg["order"][0] - 1)
+            parts.append("matching" + ("<" if d < 0 else ">" if d > 0 else "=") + "order-1")
+        elif k == "scheme":
+            parts.append(f"scheme={extra[k]}")
+        elif k == "use_fhmruvv":
+            parts.append(f"fhmruvv={int(extra[k])}")
+        elif k == "n3lo_ad_variation":
+            parts.append("n3lo_var=" + ("0" if not any(extra[k]) else "set"))
+        elif k in ("iterations", "degree", "is_log", "skip_singlet", "skip_non_singlet"):
+            parts.append(f"{k}={int(extra[k])}")
+        elif k == "ratios":
+            parts.append("ratios!=1")
+        elif k == "xif":
+            parts.append("xif<1" if extra[k] < 1 else "xif>=1")
+        elif k in ("mass_refs", "sv"):
+            continue
+        else:
+            parts.append(k)
+    return "/" + ",".join(parts)
+
+
+def case_cfg(case):
+    cfg = to_cfg(case["assign"])
+    if cfg is not None and case.get("extra"):
+        cfg.update(case["extra"])
+    return cfg
+
+
 def evaluate(case):
     res = Result()
     if case["kind"] == "entry":
         return _entry(case, res)
-    cfg = to_cfg(case["assign"])
+    cfg = case_cfg(case)
+    extra = case.get("extra") or {}
     sigc = _sig_class(cfg)
+    xcls = _extra_class(cfg, extra)
     where = f"cfg={ {k: cfg[k] for k in ('order','em_running','method','sv','xif','inversion','polarized','time_like','init','mugrid')} }"
+    if extra:
+        where += f" extra={extra}"
     seam = case["kind"]
     try:
         if seam == "s1":
-            n = s1_eval(cfg, res, f"S1/{sigc}")
+            n = s1_eval(cfg, res, f"S1/{sigc}{xcls}")
             res.info = {"values": n}
             res.outcome = "finite" if not res.fails else "nonfinite"
         else:
             ops = s1r_solve(cfg) if seam == "s1r" else cards.solve_ops(cfg, tag="c04")
             bad = [ep for ep, (o, e) in ops.items() if not np.all(np.isfinite(o)) or (e is not None and not np.all(np.isfinite(e)))]
             if bad or not ops:
-                res.fail(f"{seam.upper()}/{sigc}/nonfinite", f"{where}: non-finite entries written for {bad}")
+                res.fail(f"{seam.upper()}/{sigc}{xcls}/nonfinite", f"{where}: non-finite entries written for {bad}")
             res.outcome = "finite"
     except Exception as e:  # noqa
-        if _clean_refusal(e):
+        clean, site, why = _refusal(e, _card_facts(cards.full(cfg)))
+        coords = f"qed={int(cfg['order'][1] > 0)},sv={cfg['sv']},run={int(cfg['em_running'])}{xcls}"
+        if clean:
             res.outcome = f"refused:{type(e).__name__}:{str(e)[:60]}"
             res.nontrivial = False
-        else:
-            import traceback
-
-            tb = traceback.extract_tb(e.__traceback__)
-            site = f"{tb[-1].filename.split('/src/')[-1]}:{tb[-1].name}" if tb else "?"
+        elif why == "crash":
             res.fail(
-                f"{seam.upper()}/crash/{type(e).__name__}@{site}/qed={int(cfg['order'][1] > 0)},sv={cfg['sv']},run={int(cfg['em_running'])}",
-                f"{where}: {type(e).__name__}: {str(e)[:200]} at {site}",
+                f"{seam.upper()}/crash/{type(e).__name__}@{site}/{coords}",
+                f"{where}: {type(e).__name__}: {str(e)[:200]} at {site} (not an explicit refusal raised by eko)",
             )
             res.outcome = f"crash:{type(e).__name__}"
+        else:
+            res.fail(
+                f"{seam.upper()}/unclean-refusal/{type(e).__name__}@{site}/{why}/{coords}",
+                f"{where}: refusal {type(e).__name__}({str(e)[:200]!r}) at {site} does not name the unsupported feature of this card: {why}",
+            )
+            res.outcome = f"unclean-refusal:{why}"
     if res.fails:
         for f in res.fails:
             f.message = where + " " + f.message if not f.message.startswith("cfg=") else f.message
     return res
+
+
+QED_NS_MODES = (10102, 10103, 10202, 10203)
 
 
 def _entry(case, res):
@@ -219,8 +346,19 @@ def _entry(case, res):
     L = 1.3
     var = (0, 0, 0, 0, 0, 0, 0)
     sig = f"entry/{kind}/{what}/order={k}"
+    is_ome = what.startswith("A_")
+    facts = {
+        "qed": what.endswith("_qed") or "_qed:" in what,
+        "method-not-iterate-exact": False,
+        "polarized": kind == "pol",
+        "time_like": kind == "tl",
+        "n3lo": (k >= 3) if is_ome else (k >= 4),
+        "nf6": nf >= 6,
+        "msbar": False,
+    }
+    comps = None  # {name: component} for towers with several top components
     try:
-        if what.startswith("gamma_ns"):
+        if what.startswith("gamma_ns:"):
             mode = int(what.split(":")[1])
             if kind == "unpol":
                 g = ad_us.gamma_ns((k, 0), mode, n, nf, var, True)
@@ -245,26 +383,161 @@ def _entry(case, res):
             else:
                 g = ome_ut.A_singlet((k, 0), n, L)
             comp = g[k - 1]
+        elif what == "A_ns":
+            if kind == "unpol":
+                g = ome_us.A_non_singlet((k, 0), n, nf, L)
+            elif kind == "pol":
+                g = ome_ps.A_non_singlet((k, 0), n, L)
+            else:
+                g = ome_ut.A_non_singlet((k, 0), n, L)
+            comp = g[k - 1]
+        elif what.startswith("gamma_ns_qed:") or what in ("gamma_singlet_qed", "gamma_valence_qed"):
+            # QED towers (unpolarised space-like only): order = (k, q); top components are (k,0), (0,q) and the mixed (1,1)
+            q = case["qed"]
+            if what.startswith("gamma_ns_qed:"):
+                g = ad_us.gamma_ns_qed((k, q), int(what.split(":")[1]), n, nf, var, True)
+            elif what == "gamma_singlet_qed":
+                g = ad_us.gamma_singlet_qed((k, q), n, nf, var, True)
+            else:
+                g = ad_us.gamma_valence_qed((k, q), n, nf, var, True)
+            sig = f"entry/{kind}/{what}/order={k},{q}"
+            comps = {f"{k},0": g[k, 0], f"0,{q}": g[0, q], "1,1": g[1, 1]}
+            comp = np.concatenate([np.atleast_1d(v).ravel() for v in comps.values()])
         else:
             raise HarnessError(what)
     except HarnessError:
         raise
     except Exception as e:  # noqa
-        if _clean_refusal(e):
+        clean, site, why = _refusal(e, facts)
+        if clean:
             res.outcome = "refused"
             res.nontrivial = False
             return res
-        res.fail(sig + f"/crash/{type(e).__name__}", f"nf={nf} N={n}: {type(e).__name__}: {str(e)[:200]}")
+        if why == "crash":
+            res.fail(sig + f"/crash/{type(e).__name__}", f"nf={nf} N={n}: {type(e).__name__}: {str(e)[:200]} at {site}")
+        else:
+            res.fail(sig + f"/unclean-refusal/{why}", f"nf={nf} N={n}: refusal {type(e).__name__}({str(e)[:200]!r}) at {site}: {why}")
         return res
     if not np.all(np.isfinite(comp)):
         res.fail(sig + "/nonfinite", f"nf={nf} N={n}: {comp}")
+    elif comps is not None:
+        for name, v in comps.items():
+            if np.all(np.asarray(v) == 0):
+                res.fail(sig + f"/silent-zero/component={name}", f"nf={nf} N={n}: the ({name}) component is identically zero instead of being refused")
     elif np.all(comp == 0):
-        if kind == "tl" and what == "A_singlet" and k >= 2:
+        if kind == "tl" and is_ome and k >= 2:
             res.outcome = "documented-zero"
+            return res
+        if what == "A_ns" and k == 1 and kind in ("pol", "tl"):
+            # the O(a_s) light-quark non-singlet matching element vanishes identically (only the intrinsic heavy-quark
+            # entry of the unpolarised tower is non-zero at this order): a physical zero, not a missing ingredient
+            res.outcome = "physical-zero"
             return res
         res.fail(sig + "/silent-zero", f"nf={nf} N={n}: the order-{k} component is identically zero instead of being refused")
     res.outcome = "nonzero"
     return res
+
+
+def _a(**kw):
+    """Assignment from BASES[0] (LO, QCD only, iterate-exact, no sv, exact inversion, unpolarised, up 4->5) with deviations."""
+    a = dict(BASES[0])
+    a.update(kw)
+    return a
+
+
+M_IDX = {m: i for i, m in enumerate(cards.METHODS)}
+N3LO_SETTINGS = [
+    dict(use_fhmruvv=False, n3lo_ad_variation=[0, 0, 0, 0, 0, 0, 0]),
+    dict(use_fhmruvv=True, n3lo_ad_variation=[1, 2, 1, 2, 1, 2, 1]),
+    dict(use_fhmruvv=False, n3lo_ad_variation=[1, 2, 3, 1, 1, 1, 1]),
+]
+
+
+def extra_cases(thorough):
+    """Cards that leave the 9-dimensional product in ONE further runcard setting with distinct code behind it
+    (ev_op_max_order, mass scheme, N3LO parametrisation/variation, matching order, matching ratios, interpolation
+    mode/degree, iteration count, xif < 1, debug skip flags). All through the real runner (seam S1r)."""
+    out = []
+
+    def add(assign, extra, kind="s1r"):
+        if to_cfg(assign) is not None:
+            out.append(dict(kind=kind, assign=assign, extra=extra))
+
+    up, down, single = 1, 2, 0
+    # (1) ev_op_max_order: only the two perturbative methods read it
+    for qcd in range(4):
+        for m in ("perturbative-exact", "perturbative-expanded"):
+            for mo in (0, 1, 2, 10):
+                add(_a(qcd=qcd, method=M_IDX[m]), dict(max_order=[mo, 0]))
+    # the same through the un-stubbed solve: one card below the bound max_order >= order-1 (refused since 744418a1; an
+    # IndexError in r_vec before), one on it
+    add(_a(qcd=1, method=M_IDX["perturbative-exact"]), dict(max_order=[0, 0]), kind="s3")
+    add(_a(qcd=1, method=M_IDX["perturbative-expanded"]), dict(max_order=[1, 0]), kind="s3")
+    # (2) MSbar masses: own solver with own refusals; is_msbar term of the NNLO matching (reference scale = mass skips the solver)
+    for qcd in range(4):
+        for shape, nf in ((up, 1), (down, 2)):
+            add(_a(qcd=qcd, shape=shape, nf=nf), dict(scheme="MSBAR", mass_refs=list(M)))
+            add(_a(qcd=qcd, shape=shape, nf=nf), dict(scheme="MSBAR", mass_refs=[3.0, 3.0, 100.0]))  # m_b(3) with 3 < m_b: refused
+            add(_a(qcd=qcd, shape=shape, nf=nf), dict(scheme="MSBAR", mass_refs=[3.0, 6.0, 100.0]))  # runs the mass solver
+    add(_a(qcd=1, qed=1), dict(scheme="MSBAR", mass_refs=list(M)))
+    add(_a(qcd=2, kind=1), dict(scheme="MSBAR", mass_refs=list(M)))
+    add(_a(qcd=2, kind=2), dict(scheme="MSBAR", mass_refs=list(M)))
+    # (3) N3LO: the other parametrisation and non-central variations
+    for n3 in N3LO_SETTINGS:
+        for shape, nf in ((single, 1), (up, 1)) + (((down, 2), (single, 3)) if thorough else ()):
+            for m in ("iterate-exact", "truncated") + (("perturbative-exact", "decompose-exact") if thorough else ()):
+                add(_a(qcd=3, shape=shape, nf=nf, method=M_IDX[m]), dict(n3))
+    add(_a(qcd=3, qed=1), dict(N3LO_SETTINGS[2]))
+    # (4) matching order different from order-1 (0 = no matching, 3 = N3LO matching below N3LO evolution, 4 = beyond what exists)
+    for qcd in range(4):
+        for shape, nf in ((up, 1), (down, 2)):
+            for mo in (0, 3, 4):
+                if mo != qcd:
+                    add(_a(qcd=qcd, shape=shape, nf=nf), dict(matching_order=[mo, 0]))
+    for kind in (1, 2):
+        for mo in (0, 3):
+            add(_a(qcd=1, kind=kind), dict(matching_order=[mo, 0]))
+    add(_a(qcd=1, inversion=1, shape=down, nf=2), dict(matching_order=[3, 0]))
+    # (5) matching ratios != 1 (L != 0), linear interpolation, degree 2, iterations 0/1, xif < 1; (6) debug skip flags
+    others = [
+        dict(ratios=[0.7, 1.5, 2.0]),
+        dict(is_log=False),
+        dict(degree=2),
+        dict(iterations=0),
+        dict(iterations=1),
+        dict(xif=0.5),
+        dict(skip_singlet=True),
+        dict(skip_non_singlet=True),
+    ]
+    for b in BASES + ([_a(qcd=3), _a(qcd=3, shape=down, nf=2, inversion=1, sv=1)] if thorough else []):
+        for ex in others:
+            ex = dict(ex)
+            if "xif" in ex and DIMS["sv"][b["sv"]]["sv"] is None:
+                ex["sv"] = "exponentiated"
+            add(dict(b), ex)
+    add(_a(qcd=2, shape=down, nf=2), dict(ratios=[0.7, 1.5, 2.0]))
+    add(_a(qcd=2, shape=down, nf=2, inversion=1), dict(ratios=[0.7, 1.5, 2.0]))
+    add(_a(qcd=1, sv=2), dict(xif=0.5))
+    return out
+
+
+def entry_cases():
+    cases = []
+    for phys in ("unpol", "pol", "tl"):
+        for k in (1, 2, 3, 4):
+            for nf in (3, 4, 5):
+                for what in ("gamma_ns:10101", "gamma_ns:10201", "gamma_ns:10200", "gamma_singlet"):
+                    cases.append(dict(kind="entry", phys=phys, what=what, order=k, nf=nf))
+                if k <= 3:
+                    cases.append(dict(kind="entry", phys=phys, what="A_singlet", order=k, nf=nf))
+                    cases.append(dict(kind="entry", phys=phys, what="A_ns", order=k, nf=nf))
+    # QED towers (unpolarised space-like is the only physics with QED)
+    for k in (1, 2, 3, 4):
+        for q in (1, 2):
+            for nf in (3, 4, 5):
+                for what in [f"gamma_ns_qed:{m}" for m in QED_NS_MODES] + ["gamma_singlet_qed", "gamma_valence_qed"]:
+                    cases.append(dict(kind="entry", phys="unpol", what=what, order=k, qed=q, nf=nf))
+    return cases
 
 
 def run(ctx):
@@ -294,23 +567,29 @@ def run(ctx):
             continue
         seen.add(key)
         cases.append(dict(kind="s3", assign=a))
-    for phys in ("unpol", "pol", "tl"):
-        for k in (1, 2, 3, 4):
-            for nf in (3, 4, 5):
-                for what in ("gamma_ns:10101", "gamma_ns:10201", "gamma_ns:10200", "gamma_singlet"):
-                    cases.append(dict(kind="entry", phys=phys, what=what, order=k, nf=nf))
-                if k <= 3:
-                    cases.append(dict(kind="entry", phys=phys, what="A_singlet", order=k, nf=nf))
+    extras = extra_cases(ctx.thorough())
+    cases += extras
+    entries = entry_cases()
+    cases += entries
     # cheap cards first in each worker chunk does not matter; N3LO cards dominate the wall time
     ctx.run_cases(cases, evaluate, chunksize=4)
     ctx.extra["impossible_shape_nf_combinations_skipped"] = skipped
+    ctx.extra["cards_outside_the_product"] = len(extras)
     ctx.rule = (
         ("full product of the 9 runcard dimensions (55 296 assignments, those with an impossible (shape, nf) pair skipped)" if ctx.thorough()
          else "all cards within 2 deviations of 4 base cards over the 9 runcard dimensions")
         + " at the integrand seam (every recipe, every sector label, 3 (x, basis) pairs, 3 u-points) and, for a sub-product (quick: QCD order <= 2; thorough: order <= 2 fully, order 3-4 for 2 methods), through the real runner with the quadrature replaced by a 3-point evaluation (seam S1r); real solves on the <=1-deviation sets; "
-        "180 entry-point towers for the silent-zero clause; non-trivial = not refused"
+        f"{len(extras)} cards that leave the product in one further setting (ev_op_max_order 0/1/2/10 x QCD order x the 2 perturbative methods; MSbar masses with consistent and "
+        "inconsistent reference scales x order x up/down; N3LO with the non-FHMRUVV parametrisation and non-central variations; matching order 0/3/4 != order-1; "
+        "matching ratios != 1, linear interpolation, degree 2, 0/1 iterations, xif = 0.5, skip flags on the base cards) through the real runner (S1r; 2 un-stubbed); "
+        f"{len(entries)} entry-point towers (QCD anomalous dimensions, singlet and non-singlet matching, the three QED towers with components (k,0), (0,q), (1,1)) "
+        "for the silent-zero clause; non-trivial = not refused"
     )
     ctx.assumptions += [
-        "a refusal is clean when it is a NotImplementedError/ValueError with a message of >= 5 characters",
-        "integrand seam: finiteness at the sampled (x, basis, u) points stands for finiteness of the quadrature",
+        "a refusal is clean when it is a NotImplementedError/ValueError raised by an explicit `raise` statement inside eko/ekore/ekobox (innermost frame), whose message "
+        "contains a feature word (QED, iterate-exact, polarized, time-like, beyond NNLO / at N3LO, nf=6, MSbar, method, order, scheme, ...) and every checkable feature it names "
+        "is really set in the card; a ValueError coming out of numpy/math/builtins (broadcast, domain, singular matrix, conversion) is a crash",
+        "integrand seam: finiteness at the sampled (x, basis, u) points stands for finiteness of the quadrature; at x = 1 the integrand is 0 by an early return, so grid point k=2 exercises no kernel",
+        "settings outside the 9 product dimensions are visited one at a time on a few base cards, not in combination with each other",
+        "silent-zero exceptions: time-like matching beyond NLO (documented); the O(a_s) polarised/time-like non-singlet matching element (vanishes identically in QCD)",
     ]
